@@ -193,6 +193,137 @@ for K, mod in ((SFixed, "cohdl.std._fixed:SFixed."), (UFixed, "cohdl.std._fixed:
             con.cases.append(c)
 
 
+# ---- resize_fn, branches that keep the left index (target left >= source left): no overflow is possible ---------
+# Reference (statement of C19):  q = raw * 2**(sr - r);  n = q (exact) when sr >= r,  n = floor(raw / 2**(r - sr)) for TRUNCATE;
+# then wrapped / saturated into the raw range of [l:r] -- which is the identity here because l >= sl.
+from cohdl.std._fixed import FixedRoundStyle as RS, FixedOverflowStyle as OS  # noqa: E402
+from pyvc.contracts import PyInt  # noqa: E402
+
+
+def target_raw_range(kind, W):
+    if kind is SFixed:
+        return -P2(sym.to_int(W) - 1), P2(sym.to_int(W) - 1) - 1
+    return 0, P2(W) - 1
+
+
+def resize_spec(kind, branch, rs, os_):
+    def spec(sx, self, left, right, round_style=RS.TRUNCATE, overflow_style=OS.WRAP):
+        w, e = self.cls.params["width"], self.cls.params["exp"]
+        ra = fx_raw(self)
+        W = left - right + 1
+        if branch == "widen":
+            n = ra * P2(e - right)
+            sx.lemma("scale-bound", ra, *(( -P2(sym.to_int(w) - 1), P2(sym.to_int(w) - 1) - 1) if kind is SFixed else (0, P2(w) - 1)), P2(e - right))
+            sx.pow2_facts(W, W - 1, sym.to_int(w) - 1 + (e - right), sym.to_int(w) + (e - right), products=[(sym.to_int(w) - 1, e - right), (w, e - right)])
+        else:
+            c = right - e  # bits dropped
+            n = sym.pydiv(ra, P2(c))
+            # floor of a signed value = arithmetic shift of its two's complement pattern
+            bits_ = bits(self.fields["_val"])
+            sx.lemma("div-sub-multiple", bits_, P2(c), P2(sym.to_int(w) - c))
+            sx.lemma("div-threshold", bits_, P2(c), P2(sym.to_int(w) - 1 - c))
+            sx.lemma("div-bounds", bits_, P2(c))
+            sx.pow2_facts(w, sym.to_int(w) - 1, c, sym.to_int(w) - c, sym.to_int(w) - 1 - c, W, W - 1, products=[(c, sym.to_int(w) - c), (c, sym.to_int(w) - 1 - c)])
+        lo, hi = target_raw_range(kind, W)
+
+        def post(real):
+            if not is_fx(real, kind):
+                return False
+            v = real.fields["_val"]
+            wr, er = real.cls.params["width"], real.cls.params["exp"]
+            return sym.And(sym.eq(wr, W), sym.eq(er, right), sym.eq(width(v), W), bits(v) >= 0, bits(v) < P2(W),
+                           n >= lo, n <= hi,  # within the target range: wrap and saturate are the identity
+                           sym.eq(ival(v), n))
+
+        return C.Pred(post, "raw == exact / floored value, inside the target range")
+
+    return spec
+
+
+def wrap_spec(kind, sub):
+    """target left < source left, WRAP, no fraction bits dropped (sr >= r): the result pattern is  raw * 2**z  mod 2**W"""
+
+    def spec(sx, self, left, right, round_style=RS.TRUNCATE, overflow_style=OS.WRAP):
+        w, e = sym.to_int(self.cls.params["width"]), self.cls.params["exp"]
+        ra = fx_raw(self)
+        ba = bits(self.fields["_val"])
+        W = left - right + 1
+        z = e - right
+        ov = (e + w - 1) - left
+        n = ra * P2(z)
+        if sub == "all-above":
+            # every source bit lies above the target: 2**z is a multiple of 2**W
+            sx.lemma("div-multiple", ra * P2(z - W), P2(W))
+            sx.pow2_facts(z, W, z - W, products=[(z - W, W)])
+        else:
+            m = P2(w - ov)  # modulus of the kept source bits
+            q = P2(z)
+            u = sym.pymod(ba, m)  # the kept bits
+            s = sym.Ite(sym.to_z3(u) >= P2(w - ov - 1), u - m, u) if kind is SFixed else u  # their signed reading
+            sx.pow2_facts(w, w - ov, w - ov - 1, W, z, ov, products=[(ov, w - ov), (w - ov, z)])
+            # step 1: the source value and the kept bits agree modulo m  (raw = pattern - c * 2**ov * m)
+            sx.lemma("div-sub-multiple", ba, m, P2(ov))
+            sx.lemma("div-bounds", ba, m)
+            sx.have("raw-mod-m", sym.eq(sym.pymod(ra, m), u))
+            sx.lemma("div-sub-multiple", u, m, 1)
+            sx.lemma("div-range", u, m)
+            sx.lemma("div-range", s, m)
+            sx.have("kept-mod-m", sym.eq(sym.pymod(s, m), u))
+            # step 2: scaling by q = 2**z scales the residue:  (x*q) mod (m*q) == q * (x mod m),  m*q == 2**W
+            sx.lemma("mod-scale3", ra, m, q, P2(W))
+            sx.lemma("mod-scale3", s, m, q, P2(W))
+            sx.have("raw-scaled", sym.eq(sym.pymod(ra * q, P2(W)), q * u))
+            sx.have("kept-scaled", sym.eq(sym.pymod(s * q, P2(W)), q * u))
+
+        def post(real):
+            if not is_fx(real, kind):
+                return False
+            v = real.fields["_val"]
+            return sym.And(sym.eq(real.cls.params["width"], W), sym.eq(real.cls.params["exp"], right), sym.eq(width(v), W), bits(v) >= 0, bits(v) < P2(W),
+                           sym.eq(bits(v), sym.pymod(n, P2(W))))
+
+        return C.Pred(post, "pattern == raw * 2**z mod 2**W")
+
+    return spec
+
+
+for K, mod in ((SFixed, "cohdl.std._fixed:SFixed."), (UFixed, "cohdl.std._fixed:UFixed.")):
+    con = contract(mod + "resize_fn", PROPS)
+    for sub in ("all-above", "overlap"):
+        for rs in (RS.TRUNCATE, RS.ROUND):
+            def req(env, sub=sub):
+                sl = env["ae"] + env["aw"] - 1
+                ov = sl - env["l"]
+                return sym.And(sl > env["l"], env["l"] >= env["r"], env["ae"] >= env["r"], (ov >= env["aw"]) if sub == "all-above" else (ov < env["aw"]))
+
+            c = Case(f"narrow-left,keep-fraction,{sub},{rs.name},WRAP", [FxShape(K, "a"), PyInt("l", None, None, -6, 8), PyInt("r", None, None, -8, 6)], wrap_spec(K, sub), requires=req,
+                     kwargs={"round_style": C.Const(rs, "rs"), "overflow_style": C.Const(OS.WRAP, "os")})
+            c.native = False
+            c.may_reject = AssertionError
+            c.interp_flags = {"arith_hints": True}
+            c.timeout_factor = 4
+            con.cases.append(c)
+    for branch in ("widen", "keep-left-truncate"):
+        for rs in ((RS.TRUNCATE, RS.ROUND) if branch == "widen" else (RS.TRUNCATE,)):
+            for os_ in (OS.WRAP, OS.SATURATE):
+                def req(env, branch=branch):
+                    sl = env["ae"] + env["aw"] - 1
+                    base = [env["l"] >= sl, env["l"] >= env["r"]]
+                    if branch == "widen":
+                        base += [env["ae"] >= env["r"], sym.Or(env["l"] > sl, env["ae"] > env["r"])]
+                    else:
+                        base += [env["ae"] < env["r"], env["r"] - env["ae"] < env["aw"]]
+                    return sym.And(*base)
+
+                c = Case(f"{branch},{rs.name},{os_.name}", [FxShape(K, "a"), PyInt("l", None, None, -6, 8), PyInt("r", None, None, -8, 6)], resize_spec(K, branch, rs, os_), requires=req,
+                         kwargs={"round_style": C.Const(rs, "rs"), "overflow_style": C.Const(os_, "os")})
+                c.native = False
+                c.may_reject = AssertionError
+                c.interp_flags = {"arith_hints": True}
+                c.timeout_factor = 4
+                con.cases.append(c)
+
+
 # ---- equality: same format required; then equal raw values <=> equal represented numbers -----------------------
 def eq_spec(kind):
     def spec(sx, a, b):
